@@ -9,7 +9,8 @@
          -> (w) for writer exit class w <> 0 | (0 chroms compressed r records)   records = ((chrom start end bits) ...)
      (4 sizes_text input_text wopts ropts)         BED -> bigBed -> BED
          -> (w) | (0 chroms compressed r output_bytes)
-       wopts = (t parallel single_pass inmemory uncompressed block_size items_per_slot zooms nzooms style via as_mode)
+       wopts = (t parallel single_pass inmemory uncompressed block_size items_per_slot zooms nzooms style via as_mode stdin)
+               (from stdin the schema is not generated from the first line: no unwrap there)
        ropts = (t inmemory chrom start end style via)        optional values are () or (x)
        exit classes: 0 ok, 1 error exit, 2 panic, 3 timeout
    expect (kind 1) = () | ((chrom start end rest-or-bits)): the record the generator formatted, for the oracle. *)
@@ -76,7 +77,7 @@ Definition c16_model (c : sexp) : sexp :=
     end
   else if k =? 4 then
     let w := nthS 3 c in let r := nthS 4 c in
-    match bed_to_bigbed (negb (getN (nthS 11 (nthS 3 c)) =? 0)) (getBytes (nthS 1 c)) (getBytes (nthS 2 c)) with
+    match bed_to_bigbed (negb (getN (nthS 11 (nthS 3 c)) =? 0) || negb (getN (nthS 12 (nthS 3 c)) =? 0)) (getBytes (nthS 1 c)) (getBytes (nthS 2 c)) with
     | Ok file =>
         let ips := ips_of BEDTOBIGBED_PLUMBS_ITEMS_PER_SLOT (getOptN (nthS 6 w)) in
         L [A 0%Z; s_chroms file; sB (negb (getB (nthS 4 w))); A 0%Z;
@@ -213,7 +214,7 @@ Definition oracle_bedgraph (c out : sexp) : bool :=
 
 Definition oracle_bed (c out : sexp) : bool :=
   let r := nthS 4 c in
-  match bed_to_bigbed (negb (getN (nthS 11 (nthS 3 c)) =? 0)) (getBytes (nthS 1 c)) (getBytes (nthS 2 c)) with
+  match bed_to_bigbed (negb (getN (nthS 11 (nthS 3 c)) =? 0) || negb (getN (nthS 12 (nthS 3 c)) =? 0)) (getBytes (nthS 1 c)) (getBytes (nthS 2 c)) with
   | Ok file =>
       let items := flat_map (fun w => map (fun v => (wc_name w, v)) (wc_items w)) file in
       if existsb (fun it => (be_start (snd it) =? 0) && (be_end (snd it) =? 0)) items then true   (* [0,0): C02's known class *)
